@@ -9,7 +9,7 @@ const Enabled = true
 // by default, in which case the hooks do nothing even with the tag on.
 var (
 	OrderFn   func(site string, n int, key func(i int) string, swap func(i, j int))
-	YieldFn   func(site string, detail string)
+	YieldFn   func(site string, detail string, obj any)
 	ObserveFn func(site string, detail string, obj any)
 )
 
@@ -23,9 +23,9 @@ func Order(site string, n int, key func(i int) string, swap func(i, j int)) {
 
 // Yield marks a point between two internal statements at which a simulator
 // may hold the calling goroutine.
-func Yield(site string, detail string) {
+func Yield(site string, detail string, obj any) {
 	if f := YieldFn; f != nil {
-		f(site, detail)
+		f(site, detail, obj)
 	}
 }
 
